@@ -521,8 +521,18 @@ theorem stepL_of_op (p q : PS) (op : Mux.Op) (a : Act) (ha : actOf op = some a) 
     split at hq
     · cases hq
     · cases hq; exact ⟨rfl, rfl⟩
-  | sendDgram d => simp only [actOf, Option.some.injEq] at ha; subst ha; simp only [stepL] at hq; cases hq; exact ⟨rfl, rfl⟩
-  | recvDgram => simp only [actOf, Option.some.injEq] at ha; subst ha; simp only [stepL] at hq; cases hq; exact ⟨rfl, rfl⟩
+  | sendDgram d =>
+    simp only [actOf, Option.some.injEq] at ha; subst ha; simp only [stepL] at hq; cases hq
+    refine ⟨?_, rfl⟩
+    simp only [opStep]
+    congr 1
+    cases (appSendDgram p.a d).2 <;> simp only [ghostOf]
+  | recvDgram =>
+    simp only [actOf, Option.some.injEq] at ha; subst ha; simp only [stepL] at hq; cases hq
+    refine ⟨?_, rfl⟩
+    simp only [opStep]
+    congr 1
+    cases (appRecvDgram p.a).2 <;> simp only [ghostOf]
   | cancelOpen req => simp only [actOf, Option.some.injEq] at ha; subst ha; simp only [stepL] at hq; cases hq; exact ⟨rfl, rfl⟩
   | bindReq _ _ _ _ => simp [actOf] at ha
   | bindNext => simp [actOf] at ha
